@@ -246,14 +246,18 @@ theorem C06_text_mode_counterexample : ¬ UidsExact cfgTextMode := by
   `Process.create_time` and the loop of `Process.threads`. -/
 
 theorem xcfg_good : xcfg.Good := by
+  refine { toGoodBase := ?_, tmapChecksChr := by decide }
   constructor <;> decide
+
+/-- the `S_ISCHR` test is in the code (fix 9df9f82) -/
+theorem cfg_tmap_checks_chr : xcfg.tmapChecksChr = true := xcfg_good.tmapChecksChr
 
 /-! ## `terminal()` through the real `get_terminal_map()` -/
 
 /-- the first `terminal()` call of the interpreter scans /dev; its answer and the map it leaves in
     the memo cache are correct for EVERY tty number — provided everything the globs match is a
     device node, or the code tests `S_ISCHR` -/
-theorem terminal_first_call (x : XCfg) (hx : x.Good) (listing : List (Bytes × NodeKind)) (r : StatRec)
+theorem terminal_first_call (x : XCfg) (hx : x.GoodBase) (listing : List (Bytes × NodeKind)) (r : StatRec)
     (hwf : r.WF) (hdev : x.tmapChecksChr = true ∨ AllDevices listing) :
     ∃ m, terminalCall cfg x none (osView listing) (renderStat r) = (.ok (m.lookup r.ttyNr), some m)
       ∧ ∀ nr, TerminalOk listing nr (m.lookup nr) := by
@@ -281,15 +285,23 @@ theorem C06_terminal_map_exact (listing : List (Bytes × NodeKind)) (r : StatRec
     (hdev : xcfg.tmapChecksChr = true ∨ AllDevices listing) :
     ∃ out c, terminalCall cfg xcfg none (osView listing) (renderStat r) = (.ok out, c)
       ∧ TerminalOk listing r.ttyNr out := by
-  obtain ⟨m, h1, h2⟩ := terminal_first_call xcfg xcfg_good listing r hwf hdev
+  obtain ⟨m, h1, h2⟩ := terminal_first_call xcfg xcfg_good.toGoodBase listing r hwf hdev
   exact ⟨_, _, h1, h2 r.ttyNr⟩
 
-/-- the repaired configuration meets the full statement -/
+/-- a configuration with the `S_ISCHR` test meets the full statement -/
 theorem C06_terminal_map_exact_repaired : TerminalMapExact_Full { xcfg with tmapChecksChr := true } := by
   intro listing r hwf
-  have hg : ({ xcfg with tmapChecksChr := true } : XCfg).Good := by constructor <;> decide
+  have hg : ({ xcfg with tmapChecksChr := true } : XCfg).GoodBase := by constructor <;> decide
   obtain ⟨m, h1, h2⟩ := terminal_first_call _ hg listing r hwf (Or.inl rfl)
   exact ⟨_, _, h1, h2 r.ttyNr⟩
+
+/-- THE CODE AS IT IS meets the full statement: for every content of /dev (non-device files
+    included, any listing order, vanishing entries, aliases) and every record, the first
+    `terminal()` call returns the path of a character device whose number is the tty_nr, `None`
+    exactly when there is none. -/
+theorem C06_terminal_map_exact_code : TerminalMapExact_Full xcfg := by
+  intro listing r hwf
+  exact C06_terminal_map_exact listing r hwf (Or.inl cfg_tmap_checks_chr)
 
 /-- a process WITHOUT controlling terminal (tty_nr 0) -/
 def witnessNoTty : StatRec := { witnessThread with ttyNr := 0 }
@@ -300,8 +312,8 @@ def pathTtyX : Bytes := [47, 100, 101, 118, 47, 116, 116, 121, 88]
 /-- "/dev/pts/0" -/
 def pathPts0 : Bytes := [47, 100, 101, 118, 47, 112, 116, 115, 47, 48]
 
-/-- Without the `S_ISCHR` test the full statement is false: a REGULAR FILE `/dev/ttyX` (st_rdev 0)
-    becomes the "terminal" of every process that has none (tty_nr 0). -/
+/-- Without the `S_ISCHR` test (the code before 9df9f82) the full statement is false: a REGULAR FILE
+    `/dev/ttyX` (st_rdev 0) becomes the "terminal" of every process that has none (tty_nr 0). -/
 theorem C06_terminal_nondevice_counterexample :
     ¬ TerminalMapExact_Full { xcfg with tmapChecksChr := false } := by
   intro h
@@ -328,16 +340,30 @@ theorem C06_terminal_memoized (m : TMap) (now : List (Bytes × StatOut)) (r : St
   simp only [bind, Except.bind, rawView, pyInt_renderDec, xcfg_good.tmapMemoized, if_true,
     lookup_tmapToInt]
 
-/-- … hence every later call is exact with respect to the /dev of the FIRST call -/
+/-- HISTORIES (the property's statement for a long-lived interpreter): every later call is exact
+    with respect to the /dev of the FIRST `terminal()` call of this interpreter -/
 theorem C06_terminal_first_scan_wins (first now : List (Bytes × NodeKind)) (r0 r1 : StatRec)
     (hwf0 : r0.WF) (hwf1 : r1.WF) (hdev : xcfg.tmapChecksChr = true ∨ AllDevices first) :
     ∃ o0 m, terminalCall cfg xcfg none (osView first) (renderStat r0) = (.ok o0, some m)
       ∧ ∃ o1, terminalCall cfg xcfg (some m) (osView now) (renderStat r1) = (.ok o1, some m)
         ∧ TerminalOk first r1.ttyNr o1 := by
-  obtain ⟨m, h1, h2⟩ := terminal_first_call xcfg xcfg_good first r0 hwf0 hdev
+  obtain ⟨m, h1, h2⟩ := terminal_first_call xcfg xcfg_good.toGoodBase first r0 hwf0 hdev
   exact ⟨_, m, h1, _, C06_terminal_memoized m _ r1 hwf1, h2 r1.ttyNr⟩
 
-/-- Full statement for a long-lived interpreter: a later call is exact for the /dev of its own moment. -/
+/-- … and when /dev does not change between the calls, every call is exact for the /dev of its own
+    moment: memoisation and re-scanning coincide -/
+theorem C06_terminal_unchanged_dev_exact (dev : List (Bytes × NodeKind)) (r0 r1 : StatRec)
+    (hwf0 : r0.WF) (hwf1 : r1.WF) :
+    ∃ o0 m, terminalCall cfg xcfg none (osView dev) (renderStat r0) = (.ok o0, some m)
+      ∧ TerminalOk dev r0.ttyNr o0
+      ∧ ∃ o1, terminalCall cfg xcfg (some m) (osView dev) (renderStat r1) = (.ok o1, some m)
+        ∧ TerminalOk dev r1.ttyNr o1 := by
+  obtain ⟨m, h1, h2⟩ := terminal_first_call xcfg xcfg_good.toGoodBase dev r0 hwf0 (Or.inl cfg_tmap_checks_chr)
+  exact ⟨_, m, h1, h2 r0.ttyNr, _, C06_terminal_memoized m _ r1 hwf1, h2 r1.ttyNr⟩
+
+/-- A statement BEYOND the property's quantifier (the property speaks about records read against
+    the machine's /dev as the interpreter first saw it): a later call would be exact for the /dev
+    of its own moment even after /dev changed. Kept only to characterise the memoisation. -/
 def TerminalCurrentTree_Full (x : XCfg) : Prop :=
   ∀ (first now : List (Bytes × NodeKind)) (r0 r1 : StatRec), r0.WF → r1.WF →
     AllDevices first → AllDevices now →
@@ -345,8 +371,9 @@ def TerminalCurrentTree_Full (x : XCfg) : Prop :=
       ∃ o1 c1, terminalCall cfg x c0 (osView now) (renderStat r1) = (.ok o1, c1)
         ∧ TerminalOk now r1.ttyNr o1
 
-/-- … which the memoised map does not give: a pty created after the first `terminal()` call of
-    the interpreter is never seen (first scan: empty /dev/pts; then /dev/pts/0 appears and a
+/-- CHARACTERISATION of `@memoize` on get_terminal_map, by design and not a defect against the
+    property: a pty created after the first `terminal()` call of the interpreter is not seen until
+    `get_terminal_map.cache_clear()` (first scan: empty /dev/pts; then /dev/pts/0 appears and a
     process runs on it → `None`). -/
 theorem C06_terminal_stale_counterexample : ¬ TerminalCurrentTree_Full xcfg := by
   intro h
@@ -369,7 +396,7 @@ theorem C06_terminal_stale_counterexample : ¬ TerminalCurrentTree_Full xcfg := 
 /-- `boot_time()` returns the number of the `btime` line of any /proc/stat -/
 theorem C06_boot_time_exact (w : ProcStatW) (hwf : w.WF) :
     bootTime xcfg (renderProcStat w) = .ok (w.btime : Rat) :=
-  bootTime_render xcfg xcfg_good w hwf
+  bootTime_render xcfg xcfg_good.toGoodBase w hwf
 
 /-- End to end: from the text of /proc/stat and of /proc/<pid>/stat, with no boot time cached yet,
     `create_time()` is `btime + starttime / CLK_TCK` as an exact rational, and BOOT_TIME is then
